@@ -27,14 +27,14 @@ CONSTANTS N,         \* module / arena ids 1..N
           Bug        \* "none" or the name of the forgotten add_reference
 
 AllHows == {"direct", "list", "dict", "tuple", "gdef", "clos"}
-AllFeat == {"owned", "import", "globals"}
+AllFeat == {"owned", "import", "globals", "rehome"}
 Bugs == {"none", "load_no_ref", "freeze_no_forward", "add_to_heap_no_ref", "import_no_ref",
-         "globals_build_no_ref", "from_globals_no_ref", "eval_no_globals_ref"}
+         "globals_build_no_ref", "from_globals_no_ref", "eval_no_globals_ref", "rehome_no_ref"}
 
 ASSUME Hows \subseteq AllHows /\ Feat \subseteq AllFeat /\ Bug \in Bugs
 
 VARIABLES st,      \* [1..N -> {"unused","open","frozen","gone"}]   holder state of module k
-          kind,    \* [1..N -> {"mod","glob"}]
+          kind,    \* [1..N -> {"mod","glob","fwd"}]  ("fwd": a heap that only forwards references)
           alive,   \* [1..N -> BOOLEAN]    arena k's memory has been created and not yet released
           hrefs,   \* [1..N -> SUBSET 1..N] refs of the unfrozen Heap of open module k
           frefs,   \* [1..N -> SUBSET 1..N] refs of the FrozenHeap of k (open) / of arena k (frozen)
@@ -165,6 +165,24 @@ AddToHeap(h, k, how, c) ==
     /\ Op("add_to_heap", k, 0, 0, h, how, c)
     /\ UNCHANGED <<st, kind, alive, frefs, glob>>
 
+(* OwnedFrozen::build(name, |heap| handle.as_ref().add_to_frozen_heap(heap)): a NEW frozen heap g in
+   which nothing is allocated -- all it holds is a reference to the handle's heap (a pure
+   forwarding heap) -- and a new handle i on g for the same value.  No module or Globals holds g:
+   only handles, and the heaps that later take a reference to it, keep it (and, through it, the
+   value's real heap) alive.  heap_type.rs OwnedFrozenRef::add_to_frozen_heap:
+   heap.add_reference(self.heap_ref). *)
+Rehome(h) ==
+    LET g == NextId IN
+    /\ "rehome" \in Feat
+    /\ g <= N /\ h \in LiveH /\ FreeH # {}
+    /\ st' = [st EXCEPT ![g] = "gone"]
+    /\ kind' = [kind EXCEPT ![g] = "fwd"]
+    /\ alive' = [alive EXCEPT ![g] = TRUE]
+    /\ frefs' = [frefs EXCEPT ![g] = IF Bug = "rehome_no_ref" THEN {} ELSE {hd[h].heap}]
+    /\ hd' = [hd EXCEPT ![NextH] = [st |-> "live", heap |-> g, sym |-> [hd[h].sym EXCEPT !.via = "rehome"]]]
+    /\ Op("rehome", g, 0, NextH, h, "", FALSE)
+    /\ UNCHANGED <<hrefs, syms, glob>>
+
 (* GlobalsBuilder: value taken from frozen module f by get_option_ref(sym).add_to_frozen_heap
    (builder.frozen_heap()) and `set` (how = "direct") or put in a list allocated in the builder's
    heap (how = "list"); build() makes arena g.  heap_type.rs OwnedFrozenRef::add_to_frozen_heap. *)
@@ -264,6 +282,7 @@ NextBuild ==
     \/ \E h \in LiveH, k \in Open, how \in Hows, c \in BOOLEAN : AddToHeap(h, k, how, c)
     \/ \E f \in FrozenMods : \E i \in 1..Len(syms[f]), how \in Hows : GlobalsFromModule(f, i, how)
     \/ \E h \in LiveH, how \in Hows : GlobalsFromHandle(h, how)
+    \/ \E h \in LiveH : Rehome(h)
     \/ \E k \in Open, how \in Hows : UseGlobal(k, how)
 
 NextDrop ==
